@@ -214,8 +214,8 @@ def auto_and_then_edits(sf, lo, hi, ed, log, where, protected):
     while i < hi - 4:
         if toks[i].text == 'and_then' and toks[i - 1].text == '.' and toks[i + 1].text == '(' and toks[i + 2].text == '|':
             e = match_close(toks, i + 1)
-            if toks[e + 1].text != ';':
-                raise Undecided('%s: R12 needs `.and_then(..)` to end a let statement' % where)
+            if not (toks[e + 1].text == ';' or (toks[e + 1].text == '?' and toks[e + 2].text == ';')):
+                raise Undecided('%s: R12 needs `.and_then(..)` to end a statement (`;` or `?;`)' % where)
             # closure parameter: a single identifier
             if not (toks[i + 3].kind == 'ident' and toks[i + 4].text == '|'):
                 raise Undecided('%s: R12 needs a single-identifier closure parameter' % where)
@@ -227,11 +227,13 @@ def auto_and_then_edits(sf, lo, hi, ed, log, where, protected):
                 if t in (')', ']', '}'):
                     depth += 1
                 elif t in ('(', '[', '{'):
+                    if depth == 0:
+                        break       # start of the enclosing block: the receiver starts an expression statement
                     depth -= 1
                 elif t == '=' and depth == 0:
                     break
                 elif t == ';' and depth == 0:
-                    raise Undecided('%s: R12 could not find the let initializer' % where)
+                    break           # expression statement `RECV.and_then(..)?;`
                 k -= 1
             recv_lo = k + 1
             param = toks[i + 3].text
